@@ -490,6 +490,10 @@ func init() {
 		tt := fn.Signature.Results().At(0).Type()
 		cell := new(Value)
 		*cell = w.zero(deref(tt))
+		if w.timersFire() {
+			(*cell).(Struct)[0] = w.newModelTimer(fr, args[0].(*Term))
+			return cell
+		}
 		(*cell).(Struct)[0] = w.newChan(1)
 		if w.res != nil {
 			w.res.Cuts["timers never fire (time.NewTimer / time.After / time.AfterFunc)"]++
@@ -497,12 +501,24 @@ func init() {
 		return cell
 	})
 	reg("time.After", func(w *World, t *Thread, fr *frame, fn *ssa.Function, args []Value) Value {
+		if w.timersFire() {
+			return w.newModelTimer(fr, args[0].(*Term))
+		}
 		if w.res != nil {
 			w.res.Cuts["timers never fire (time.NewTimer / time.After / time.AfterFunc)"]++
 		}
 		return w.newChan(1)
 	})
-	reg("(*time.Timer).Stop", func(w *World, t *Thread, fr *frame, fn *ssa.Function, args []Value) Value { return w.tt.T })
+	reg("(*time.Timer).Stop", func(w *World, t *Thread, fr *frame, fn *ssa.Function, args []Value) Value {
+		if w.timersFire() {
+			if cell, ok := args[0].(*Value); ok && cell != nil {
+				if ch, ok := (*cell).(Struct)[0].(*Chan); ok {
+					return w.tt.Bool(w.stopModelTimer(ch))
+				}
+			}
+		}
+		return w.tt.T
+	})
 	reg("(*time.Timer).Reset", func(w *World, t *Thread, fr *frame, fn *ssa.Function, args []Value) Value { return w.tt.T })
 	reg("(*time.Ticker).Stop", func(w *World, t *Thread, fr *frame, fn *ssa.Function, args []Value) Value { return nil })
 	reg("(*time.Ticker).Reset", func(w *World, t *Thread, fr *frame, fn *ssa.Function, args []Value) Value { return nil })
